@@ -7,8 +7,11 @@
    the level-0 cell is the face cell.  A token is [k |-> "s2" | "a2", c |-> cell].
 
    Two variants of the feature side:
-     FeatureTokens         the design: every covering cell gets its s2 token (the lemma holds for it)
-     FeatureTokensAsBuilt  the code as built: `if cell.Level() == 0 { continue }` in TokensForCovering *)
+     FeatureTokens         the design: every covering cell gets its s2 token (the lemma holds for it); this is
+                           the code since /repo commit 057c2cd ("index features whose covering contains a face cell")
+     FeatureTokensAsBuilt  the code as it was found: `if cell.Level() == 0 { continue }` in TokensForCovering.
+                           Kept so that the gap stays documented by a TLC counterexample and a re-introduction of
+                           the skip is recognised and named (failure key face-cell-covering-gets-no-token). *)
 EXTENDS Integers, Sequences, FiniteSets
 
 Cell(f, p) == [f |-> f, p |-> p]
